@@ -412,15 +412,15 @@ Proof.
   unfold merge_latest_mem. intros H. minv H. destruct msg as [|b m].
   { apply ret_inv in H as [[=] _]. }
   destruct (Note.open str V (b :: m) (c_verifiers a)).
-  2: { apply ret_inv in H as [[= <-] _]. discriminate. }
+  2: { apply ret_inv in H as [[= ->] _]. discriminate. }
   destruct (parse_tree (n_text a0)).
-  2,3: apply ret_inv in H as [[= <-] _]; discriminate.
+  2,3: apply ret_inv in H as [[= ->] _]; discriminate.
   destruct (_ <=? _).
   - minv H. destruct a2 as [err|].
-    + apply ret_inv in H as [[= <-] _]. apply check_trees_errs in E0. intuition congruence.
+    + apply ret_inv in H as [[= ->] _]. apply check_trees_errs in E0. intuition congruence.
     + apply ret_inv in H as [[=] _].
   - minv H. destruct a2 as [err|].
-    + apply ret_inv in H as [[= <-] _]. apply check_trees_errs in E0. intuition congruence.
+    + apply ret_inv in H as [[= ->] _]. apply check_trees_errs in E0. intuition congruence.
     + minv H. apply ret_inv in H as [[=] _].
 Qed.
 
